@@ -1,7 +1,260 @@
-// Package c04 interprets the C04 op language against the real packages (stub).
+// Package c04 interprets the C04 op language against the real packages: isolation.LoadRules,
+// api.Entry(WithBatchCount), SentinelEntry.Exit and the resource node's concurrency gauge.
+//
+//	load <res:threshold>*
+//	entry <id> <res> <batch>                 => pass | block iso <rule-index> <triggered-value> | dup
+//	exit <id>
+//	conc <res>                               => gauge
+//	sched <id0> <res> <b0,b1,…> <i0,i1,…|->  => [r0,…] max=<g>
+//	par <id0> <k> <res> <batch>              = sched id0 res b,…,b 0,…,k-1,0,…,k-1
+//
+// sched: thread i is a goroutine calling api.Entry(res, WithBatchCount(b_i)); the yield hook
+// chain.between-check-and-stat (util/verifhook.Sched) parks it between the rule check and the statistic
+// slots.  One schedule entry = one step of the thread it names: idle -> run up to the hook; parked -> finish
+// api.Entry; in flight -> Exit.  Entries naming a finished (blocked/exited) or unknown thread are skipped.  After the schedule
+// every thread still parked inside api.Entry is let through in index order.  The gauge is sampled after
+// every step; its maximum is printed.
 package c04
 
-import "verifharness/internal/vh"
+import (
+	"fmt"
+	"runtime"
+	"runtime/debug"
+	"strconv"
+	"strings"
 
-// New returns the interpreter for C04.
-func New() vh.Interp { return nil }
+	sentinel "github.com/alibaba/sentinel-golang/api"
+	"github.com/alibaba/sentinel-golang/core/base"
+	"github.com/alibaba/sentinel-golang/core/flow"
+	"github.com/alibaba/sentinel-golang/core/isolation"
+	"github.com/alibaba/sentinel-golang/core/stat"
+	"github.com/alibaba/sentinel-golang/util/verifhook"
+	"verifharness/internal/vh"
+)
+
+const hookPoint = "chain.between-check-and-stat"
+
+type handle struct {
+	e      *base.SentinelEntry
+	exited bool
+}
+
+type thread struct {
+	grant chan struct{}
+	yield chan struct{}
+	state int // 0 idle, 1 parked in the hook, 2 returned from api.Entry, 3 exited
+	e     *base.SentinelEntry
+	b     *base.BlockError
+}
+
+type Interp struct {
+	clk   *vh.Clock
+	now   uint64
+	ents  map[uint64]*handle
+	rules []*isolation.Rule
+	cur   *thread // the scheduled worker currently running (nil: the interpreter itself)
+}
+
+func New() vh.Interp {
+	vh.Silence()
+	runtime.GOMAXPROCS(1)
+	debug.SetGCPercent(-1)
+	it := &Interp{now: 1_900_000_000_000}
+	it.clk = vh.NewClock(it.now)
+	verifhook.Sched = it.hook
+	return it
+}
+
+func (it *Interp) hook(point string) {
+	t := it.cur
+	if t == nil || point != hookPoint {
+		return
+	}
+	t.state = 1
+	t.yield <- struct{}{}
+	<-t.grant
+}
+
+func (it *Interp) Reset() {
+	// finish whatever the previous case left in flight, then clear every module this property touches
+	for _, h := range it.ents {
+		if !h.exited {
+			h.e.Exit()
+		}
+	}
+	it.ents = map[uint64]*handle{}
+	it.rules = nil
+	_ = isolation.ClearRules()
+	_ = flow.ClearRules()
+	stat.ResetResourceNodeMap()
+	it.now += 20_000 // more than the whole default array interval (10 s)
+	it.clk.SetMs(it.now)
+}
+
+func u32(s string) uint32 {
+	v, err := strconv.ParseUint(s, 10, 32)
+	if err != nil {
+		panic("bad uint32 " + s)
+	}
+	return uint32(v)
+}
+
+func list(s string) []string {
+	if s == "-" {
+		return nil
+	}
+	return strings.Split(s, ",")
+}
+
+func (it *Interp) gauge(res string) int32 {
+	n := stat.GetResourceNode(res)
+	if n == nil {
+		return 0
+	}
+	return n.CurrentConcurrency()
+}
+
+func (it *Interp) live(id uint64) bool {
+	h, ok := it.ents[id]
+	return ok && !h.exited
+}
+
+// blockParts returns (rule-index, triggered-value) of an isolation block ("other:<type>", "?" for anything else).
+func blockParts(b *base.BlockError) (string, string) {
+	if b.BlockType() != base.BlockTypeIsolation {
+		return "other:" + b.BlockType().String(), "?"
+	}
+	idx := "?"
+	if r, ok := b.TriggeredRule().(*isolation.Rule); ok && r != nil {
+		idx = r.ID
+	}
+	return idx, fmt.Sprint(b.TriggeredValue())
+}
+
+func (it *Interp) Step(t []string, op string) string {
+	switch t[0] {
+	case "load":
+		rules := make([]*isolation.Rule, 0, len(t)-1)
+		for i, a := range t[1:] {
+			k := strings.IndexByte(a, ':')
+			if k <= 0 {
+				panic("bad rule " + a)
+			}
+			rules = append(rules, &isolation.Rule{ID: strconv.Itoa(i), Resource: a[:k], MetricType: isolation.Concurrency, Threshold: u32(a[k+1:])})
+		}
+		if _, err := isolation.LoadRules(rules); err != nil {
+			return "err"
+		}
+		return ""
+	case "entry":
+		id := vh.U(t[1])
+		if it.live(id) {
+			return "dup"
+		}
+		e, b := sentinel.Entry(t[2], sentinel.WithBatchCount(u32(t[3])))
+		if b != nil {
+			idx, tv := blockParts(b)
+			return "block iso " + idx + " " + tv
+		}
+		it.ents[id] = &handle{e: e}
+		return "pass"
+	case "exit":
+		if h, ok := it.ents[vh.U(t[1])]; ok {
+			h.e.Exit() // a second Exit of the same entry must be a no-op (sync.Once)
+			h.exited = true
+		}
+		return ""
+	case "conc":
+		return fmt.Sprint(it.gauge(t[1]))
+	case "par":
+		k := int(vh.U(t[2]))
+		bs := make([]string, k)
+		sch := make([]string, 0, 2*k)
+		for i := 0; i < k; i++ {
+			bs[i] = t[4]
+			sch = append(sch, strconv.Itoa(i))
+		}
+		sch = append(sch, sch...)
+		return it.sched(vh.U(t[1]), t[3], bs, sch)
+	case "sched":
+		return it.sched(vh.U(t[1]), t[2], list(t[3]), list(t[4]))
+	}
+	panic("unknown op " + t[0])
+}
+
+func (it *Interp) sched(id0 uint64, res string, bs, sch []string) string {
+	m := len(bs)
+	for i := 0; i < m; i++ {
+		if it.live(id0 + uint64(i)) {
+			return "dup"
+		}
+	}
+	ths := make([]*thread, m)
+	for i := range ths {
+		t := &thread{grant: make(chan struct{}), yield: make(chan struct{})}
+		b := u32(bs[i])
+		ths[i] = t
+		go func() {
+			if _, ok := <-t.grant; !ok {
+				return // never scheduled
+			}
+			t.e, t.b = sentinel.Entry(res, sentinel.WithBatchCount(b))
+			t.state = 2
+			t.yield <- struct{}{}
+			if t.b != nil {
+				return
+			}
+			if _, ok := <-t.grant; !ok {
+				return // stays in flight
+			}
+			t.e.Exit()
+			t.state = 3
+			t.yield <- struct{}{}
+		}()
+	}
+	mx := it.gauge(res)
+	step := func(i int) {
+		t := ths[i]
+		if t.state == 3 || (t.state == 2 && t.b != nil) {
+			return
+		}
+		it.cur = t
+		t.grant <- struct{}{}
+		<-t.yield
+		it.cur = nil
+		if g := it.gauge(res); g > mx {
+			mx = g
+		}
+	}
+	for _, s := range sch {
+		i := int(vh.U(s))
+		if i < m {
+			step(i)
+		}
+	}
+	for i, t := range ths {
+		if t.state == 1 {
+			step(i)
+		}
+	}
+	out := make([]string, m)
+	for i, t := range ths {
+		switch {
+		case t.state == 0:
+			out[i] = "-"
+			close(t.grant)
+		case t.state == 2 && t.b != nil:
+			idx, tv := blockParts(t.b)
+			out[i] = "b" + idx + ":" + tv
+		case t.state == 2:
+			out[i] = "p"
+			close(t.grant)
+			it.ents[id0+uint64(i)] = &handle{e: t.e}
+		case t.state == 3:
+			out[i] = "x"
+		default:
+			out[i] = "?"
+		}
+	}
+	return vh.List(out) + " max=" + fmt.Sprint(mx)
+}
